@@ -1134,3 +1134,30 @@ Module Ex.
     repeat split; eexists; (split; [vm_compute; reflexivity|vm_compute; discriminate]) || (vm_compute; reflexivity).
   Qed.
 End Ex.
+
+(** * The wire -> field step is not injective (finding)
+
+    [mac_input_binding] is about decoded fields.  The decoder keeps EIDs as
+    URI strings and re-encodes them through [urlsplit] ([eid_norm]), so two
+    different encoded bundles can carry the same decoded content: the
+    verifier authenticates exactly the same input for both.  Witnesses: a
+    bundle the real agent produced (COSE_Mac0 / HMAC-256 BIB, scope
+    {0:1,-1:1}); the same bundle with "?q=1" appended to the destination EID
+    of the primary block (CRC value left as it was); the same bundle with one
+    bit of the security source flipped ("//src/" -> "//src?").  The real
+    receive path delivers both altered bundles as verified. *)
+Module Wit.
+  Definition orig : bytes := (unhex 148 0x9f890700018201692f2f6473742f7376638201662f2f7372632f820100821b000000ba43b74000001a0036ee8042a6b2850b020000584e810103018201662f2f7372632f818205a2000120018181821158338443a10105a104486b2d6d6163323536f65820ba03965c5ded6c48aad4b8cdf224f7caa4074928f79307f15d17817f85cf972b86010100014568656c6c6f424bf3ff).
+  Definition alt_primary : bytes := (unhex 152 0x9f8907000182016d2f2f6473742f7376633f713d318201662f2f7372632f820100821b000000ba43b74000001a0036ee8042a6b2850b020000584e810103018201662f2f7372632f818205a2000120018181821158338443a10105a104486b2d6d6163323536f65820ba03965c5ded6c48aad4b8cdf224f7caa4074928f79307f15d17817f85cf972b86010100014568656c6c6f424bf3ff).
+  Definition alt_source : bytes := (unhex 148 0x9f890700018201692f2f6473742f7376638201662f2f7372632f820100821b000000ba43b74000001a0036ee8042a6b2850b020000584e810103018201662f2f7372633f818205a2000120018181821158338443a10105a104486b2d6d6163323536f65820ba03965c5ded6c48aad4b8cdf224f7caa4074928f79307f15d17817f85cf972b86010100014568656c6c6f424bf3ff).
+
+  Lemma primary_refuted :
+    wire_primary_raw orig <> wire_primary_raw alt_primary /\ wire_primary_raw alt_primary <> None /\
+    verdict orig alt_primary = 1.
+  Proof. vm_compute. repeat split; discriminate. Qed.
+
+  Lemma source_refuted :
+    wire_sources_raw orig <> wire_sources_raw alt_source /\ wire_sources_raw alt_source <> None /\
+    length orig = length alt_source /\ verdict orig alt_source = 1.
+  Proof. vm_compute. repeat split; discriminate. Qed.
+End Wit.
